@@ -170,6 +170,9 @@ def _chunk(args):
                 muts.append(("unknown_field", rnd.choice(segs)))
                 muts.append(("duplicate_field", rnd.choice(segs)))
                 muts.append(("z_segment", rnd.choice(segs)))
+            muts.append(("read_absent_children", None))
+            if req:
+                muts.append(("remove_required_segment_then_read_it", rnd.choice(req)))
             for (mut, target) in muts:
                 try:
                     m = fresh()
@@ -196,6 +199,39 @@ def _chunk(args):
                         c.add(Field(nm, version=v))
                     elif mut == "z_segment":
                         p.add(Segment("ZZ1", version=v))
+                    elif mut == "read_absent_children":
+                        # pure reads of children that do not exist, at every level, before validating
+                        for (pp, cc) in pr:
+                            if cc.classname == "Segment":
+                                tab = T.seg_rows(v, cc.name) or []
+                                for r_ in tab[:6] + tab[-2:]:
+                                    try:
+                                        x = getattr(cc, r_["name"].lower())
+                                        x.value
+                                        x.to_er7()
+                                    except Exception:
+                                        pass
+                        for n_ in nodes:
+                            try:
+                                x = getattr(m, n_[0].lower())
+                                len(x)
+                                x.to_er7() if len(x) else None
+                                if n_[1] == "SEG":
+                                    tab = T.seg_rows(v, n_[0]) or []
+                                    if tab:
+                                        getattr(x, tab[0]["name"].lower()).value
+                            except Exception:
+                                pass
+                    elif mut == "remove_required_segment_then_read_it":
+                        p.children.remove(c)
+                        try:
+                            x = getattr(p, c.name.lower())
+                            tab = T.seg_rows(v, c.name) or []
+                            if tab:
+                                getattr(x, tab[0]["name"].lower()).value
+                                getattr(x, tab[-1]["name"].lower()).to_er7()
+                        except Exception:
+                            pass
                 except Exception as ex:
                     out.append({"harness_note": "mutation %s failed on %s %s: %s" % (mut, v, sid, exc_name(ex))})
                     continue
